@@ -221,7 +221,9 @@ func (e *Engine) entryState() *State {
 	st.clock = sym("clock@0", sortInt)
 	for _, g := range e.db.GhostOrd {
 		gd := e.db.Ghosts[g]
-		srt, _, err := specSort(gd.Type, nil)
+		dummy := &Frame{eng: e, notes: map[string]bool{}}
+		dummy.root = dummy
+		srt, _, err := specSort(gd.Type, &SpecEnv{f: dummy})
 		if err != nil {
 			e.specErrors = append(e.specErrors, "ghost "+g+": "+err.Error())
 			continue
